@@ -437,6 +437,11 @@ func (ipfs *Connector) pinProgress(ctx context.Context, hash cid.Cid, maxDepth a
 				return ctx.Err()
 			default:
 				if err == io.EOF {
+					// Errors happening after the first progress
+					// update are sent by ipfs in a trailer.
+					if sErr := res.Trailer.Get("X-Stream-Error"); sErr != "" {
+						return errors.New(sErr)
+					}
 					return nil // clean exit. Pinned!
 				}
 				return err // error decoding
